@@ -1509,7 +1509,7 @@ class System:
             return None
         names, typ, phase = [], [], []
         rs, ii, pwr = [], [], []
-        domain, dname = [], "none"
+        domain, dname, ndomain = [], "none", {}
         phase_names = list(self._g.attrs["phases"].keys())
         self._set_phase_lkup()
         src_cnt = 0
@@ -1518,6 +1518,9 @@ class System:
             if tname == "SOURCE":
                 dname = self._g[n]._params["name"]
                 src_cnt += 1
+            else:
+                dname = ndomain[self._parents[n][0]]
+            ndomain[n] = dname
             ph_names = []
             if tname == "SLOSS":
                 ph_names += ["N/A"]
